@@ -1,7 +1,9 @@
 ------------------------------- MODULE MC_C09 -------------------------------
 (***************************************************************************)
-(* Bounded instance for C09: every source of at most MaxSegs atoms         *)
-(* (LexerAtoms), built one segment at a time.  For every source TLC checks *)
+(* Bounded instance for C09: every source of at most MaxSegs atoms of      *)
+(* AtomSet, every source of at most FocusSegs atoms of FocusSet and every  *)
+(* source of at most 2 atoms of PairSet (LexerAtoms), built one segment at *)
+(* a time.  For every source TLC checks                                    *)
 (* the theorems of Lexer.tla and that the repaired hand-over loop          *)
 (* (LexerHandover with no deviation) refines Tokens; the Export invariant  *)
 (* writes one JSON line per source with the expected token stream          *)
@@ -9,15 +11,22 @@
 (***************************************************************************)
 EXTENDS LexerAtoms, LexerHandover, TLC, Json, IOUtils
 
-CONSTANTS MaxSegs,    \* longest source, in segments
-          AtomSet     \* the atoms used (subset of 1..NAtoms)
+CONSTANTS MaxSegs,    \* longest source, in segments, over
+          AtomSet,    \* these atoms (subset of 1..NAtoms)
+          FocusSegs,  \* a second bound, over
+          FocusSet,   \* these atoms
+          PairSet     \* and every source of <= 2 segments over these atoms
 VARIABLE ids
 
+Within(s, n, A) == Len(s) <= n /\ \A i \in 1..Len(s) : s[i] \in A
+\* each of the three classes is prefix-closed, so building sources by appending reaches all of them
+Admit(s) == Within(s, MaxSegs, AtomSet) \/ Within(s, FocusSegs, FocusSet) \/ Within(s, 2, PairSet)
+
 MCInit == ids = <<>>
-Emit(a) == /\ Len(ids) < MaxSegs
-           /\ (IF ids = <<>> THEN TRUE ELSE ~IsLast(ids[Len(ids)]))
+Emit(a) == /\ (IF ids = <<>> THEN TRUE ELSE ~IsLast(ids[Len(ids)]))
+           /\ Admit(Append(ids, a))
            /\ ids' = Append(ids, a)
-MCNext == \E a \in AtomSet : Emit(a)
+MCNext == \E a \in AtomSet \cup FocusSet \cup PairSet : Emit(a)
 MCSpec == MCInit /\ [][MCNext]_ids
 
 src == Src(ids)
